@@ -17,17 +17,17 @@ def pendable(name):
     return name.endswith('Timer>::wait_for') or name.endswith('Timer>::wait_until')
 
 
-def explore_run(chk, nctl=1, unroll=2, max_pending=1, max_paths=30000, polls=6, assume=None, iters=None):
+def explore_run(chk, nctl=1, unroll=2, max_pending=1, max_paths=30000, polls=6, assume=None, iters=None, pend_policy=None):
     def shape(o, t):
         return 1
-    iters = iters or unroll
+    iters = unroll if iters is None else iters
 
     def stop_when(st, key):
         if key.endswith('::update_check_allowed'):
             return len([e for e in st.trace if e.kind == 'env' and e.name.endswith('::update_check_allowed')]) > iters
         return False
     cfg = dict(unroll=unroll, env_assume=assume or mk_assume('sut'), shape=shape, max_paths=max_paths, on_budget='stop',
-               pendable=pendable, max_pending=max_pending, max_control_requests=nctl, stop_when=stop_when)
+               pendable=pendable, max_pending=max_pending, max_control_requests=nctl, stop_when=stop_when, pend_policy=pend_policy)
     ex = make_sm_executor(chk, cfg, cuts=('persist', 'appset', 'sut', 'ping', 'select'))
     fn = find_method(ex, 'StateMachine::run')
     sm = Tree({}, 'sm', 'StateMachine')
@@ -106,12 +106,19 @@ def monitor_run(chk, tier):
         ('one-truthful-reply', 'every received start-update-check request gets exactly one reply: Started / Throttled when it arrived while waiting (according to the policy decision, and the check then runs with the request\'s options), AlreadyRunning while a check or the reboot wait is in progress'),
         ('timers-follow-policy', 'before every wait the policy is asked for the timing, it is stored and announced; timers are armed with exactly its time bound and minimum wait; a scheduled check starts only after the time-bound timer and (when present) the minimum-wait timer have fired; in the reboot wait the reboot question is re-asked only after its 30-minute timer fired or an on-demand request arrived, pings only after the ping timers fired'),
         ('idle-and-waiting-for-reboot', 'each check is followed by Idle, with WaitingForReboot in between exactly when a reboot is pending'),
+        ('run-explored', 'every explored path of StateMachine::run ends normally or at the stated bound: no panic (unwrap/expect, arithmetic), no abort; the path budget was not exhausted and every behaviour class the monitors need was reached (vacuity guard)'),
         ('waited-for-reboot-report', 'the waited-for-reboot duration is reported iff a finish time is stored and the stored target version equals the running OS version; after a successful report both keys are removed and committed and the report is not repeated; otherwise nothing is removed'),
     ):
         obs[name] = chk.ob(name, desc)
-    def with_reboot(needed, finish_time=None, negative=False):
+    def with_reboot(needed, finish_time=None, negative=False, plain_timing=False):
         inner = mk_assume('sut')
         def assume(ex, st, name, val, ty):
+            if plain_timing and name.endswith('::compute_next_update_time!out'):
+                # this exploration is about the reboot questions, not the timers: wall-clock bound, no minimum wait
+                tm = ex.child(st, val, fidx(ex, 'CheckTiming', 'time'), 'time::PartialComplexTime')
+                mw = ex.child(st, val, fidx(ex, 'CheckTiming', 'minimum_wait'), 'std::option::Option<std::time::Duration>')
+                st.pc.append(ex.discr_of(st, tm).t == 0)
+                st.pc.append(ex.discr_of(st, mw).t == 0)
             if name == 'start_update_check' and needed is not None:
                 st.pc.append(ex.discr_of(st, val, ty).t == (0 if needed else 1))
             if finish_time is False and name.endswith('Storage>::get_int!out'):
@@ -120,11 +127,22 @@ def monitor_run(chk, tier):
                 st.pc.append(ex.discr_of(st, val, ty).t == 2)       # TooSoon
             return inner(ex, st, name, val, ty)
         return assume
+    def reboot_wait_policy(st, name, key):
+        """the reboot wait in depth: the check itself completes at once and its own timers fire (so the one
+        request arrives during the reboot wait); in the reboot wait the ping time bound never comes, the
+        30-minute timer may or may not fire"""
+        in_reboot = any(e.kind == 'env' and e.name.endswith('::reboot_allowed') for e in st.trace)
+        if name == 'start_update_check' or not in_reboot:
+            return 'fire'
+        if name.endswith('Timer>::wait_until'):
+            return 'pend'
+        return 'both'
     # several explorations, each symbolic in one group of dimensions (the others fixed as stated)
     plans = [
         dict(label='requests-no-reboot', nctl=1, unroll=1, assume=with_reboot(False, finish_time=False), max_paths=20000),
         dict(label='requests-reboot-wait', nctl=1, unroll=1, assume=with_reboot(True, finish_time=False), max_paths=20000),
         dict(label='two-iterations-no-requests-no-reboot', nctl=0, unroll=2, assume=with_reboot(False, finish_time=False), max_paths=20000, polls=4),
+        dict(label='reboot-wait-two-rounds', nctl=1, unroll=2, iters=1, assume=with_reboot(True, finish_time=False, plain_timing=True), max_paths=40000, polls=3, max_pending=0, pend_policy=reboot_wait_policy),
         dict(label='startup-report-two-iterations', nctl=0, unroll=2, assume=with_reboot(False, negative=True), max_paths=20000, max_pending=0),
     ]
     if tier == 'thorough':
@@ -137,14 +155,14 @@ def monitor_run(chk, tier):
     info = []
     for plan in plans:
         t_plan = time.time()
-        ex, res = explore_run(chk, nctl=plan['nctl'], unroll=plan['unroll'], max_pending=plan.get('max_pending', 1), max_paths=plan['max_paths'], assume=plan['assume'], polls=plan.get('polls', 6))
+        ex, res = explore_run(chk, nctl=plan['nctl'], unroll=plan['unroll'], max_pending=plan.get('max_pending', 1), max_paths=plan['max_paths'], assume=plan['assume'], polls=plan.get('polls', 6), pend_policy=plan.get('pend_policy'), iters=plan.get('iters'))
         for n_, o in obs.items():
             if n_ not in Ds:
                 Ds[n_] = Decide(chk, ex, o, cross=False)
             Ds[n_].ex = ex
         for st in res:
             if st.status not in ('done', 'bound'):
-                Ds['check-needs-consent'].no_bad_status([st])
+                Ds['run-explored'].no_bad_status([st])
                 continue
             steps = decode(ex, st)
             names = [s.name for s in steps]
@@ -152,7 +170,7 @@ def monitor_run(chk, tier):
                 samples.append(names)
             check_path(ex, st, steps, Ds, cover)
         if ex.budget_hit:
-            Ds['check-needs-consent'].failed = Ds['check-needs-consent'].failed or ('inconclusive', 'path budget exhausted in exploration %s' % plan['label'], None, None)
+            Ds['run-explored'].failed = Ds['run-explored'].failed or ('inconclusive', 'path budget exhausted in exploration %s' % plan['label'], None, None)
         info.append({'exploration': plan['label'], 'wall_s': round(time.time() - t_plan, 1), 'paths': len(res), 'control_requests': plan['nctl'], 'loop_iterations': plan['unroll']})
         chk.absorb(ex)
     chk.samples.append({'run_paths': samples})
@@ -161,7 +179,7 @@ def monitor_run(chk, tier):
     need = {'invalid', 'throttled-request', 'started-request', 'already-running-check', 'already-running-reboot', 'scheduled-check',
             'reboot', 'ondemand-upgrade', 'minimum-wait', 'report-ok', 'report-skipped'}
     if not need <= cover:
-        Ds['check-needs-consent'].failed = Ds['check-needs-consent'].failed or ('inconclusive', 'vacuous: not reached: %s' % sorted(need - cover), None, None)
+        Ds['run-explored'].failed = Ds['run-explored'].failed or ('inconclusive', 'vacuous: not reached: %s' % sorted(need - cover), None, None)
     for name, d in Ds.items():
         f = d.done()
         if f and f[0] == 'violated':
@@ -187,7 +205,7 @@ def check_path(ex, st, steps, Ds, cover):
             bad('invalid-apps-never-start', 'state machine did something with an invalid app set')
         return
     if valid is None:
-        Ds['invalid-apps-never-start'].failed = Ds['invalid-apps-never-start'].failed or ('inconclusive', 'validity undecided', None, st)
+        Ds['run-explored'].failed = Ds['run-explored'].failed or ('inconclusive', 'validity undecided', None, st)
         return
     # ---- startup: waited-for-reboot bookkeeping
     waited_report(ex, st, steps, Ds['waited-for-reboot-report'], cover, bad)
@@ -206,8 +224,27 @@ def check_path(ex, st, steps, Ds, cover):
     ping_timers = []
     got_ondemand_in_reboot = False
     since_compute = []
+    def timers_complete(why):
+        """the timers armed for the current wait are exactly those the policy's timing calls for"""
+        if last_timing is None:
+            return
+        tm = last_timing.info['timing']
+        mw = ex.child(st, tm, fidx(ex, 'CheckTiming', 'minimum_wait'), 'std::option::Option<std::time::Duration>')
+        nfor = len([t for t in timers if t.name == 'wait_for'])
+        nuntil = len([t for t in timers if t.name == 'wait_until'])
+        if nuntil != 1:
+            bad('timers-follow-policy', '%d time-bound timers armed for one wait (%s)' % (nuntil, why))
+        if nfor == 0:
+            # no minimum-wait timer: only right if the policy gave no minimum wait (of whatever length)
+            Ds['timers-follow-policy'].require(st, ex.discr_of(st, mw).t == 0, 'no minimum-wait timer armed although the policy gave a minimum wait (%s)' % why)
+        elif nfor > 1:
+            bad('timers-follow-policy', '%d minimum-wait timers armed for one wait (%s)' % (nfor, why))
+
     for k, s in enumerate(steps):
         nm = s.name
+        if nm in ('control-request', 'update_check_allowed', 'ping_omaha') and mode in ('idle', 'reboot') and timers is not None and last_timing is not None \
+                and not any(x.name in ('control-request', 'update_check_allowed', 'ping_omaha', 'reboot_allowed') for x in steps[steps.index(last_timing):k]):
+            timers_complete('before ' + nm)
         if nm == 'compute_next_update_time':
             last_timing = s
             timers = []
@@ -285,7 +322,7 @@ def check_path(ex, st, steps, Ds, cover):
                 if len(wu) != 1 or not all(t.info['fired'] for t in timers):
                     bad('timers-follow-policy', 'a scheduled check began although a timer of this wait had not fired (timers %s)' % [(t.name, t.info['fired']) for t in timers])
             if s.info['decision'] is None and not (st.status == 'bound' and s is [x for x in steps if x.name == 'update_check_allowed'][-1]):
-                Ds['check-needs-consent'].failed = Ds['check-needs-consent'].failed or ('inconclusive', 'policy decision undecided', None, st)
+                Ds['run-explored'].failed = Ds['run-explored'].failed or ('inconclusive', 'policy decision undecided', None, st)
         elif nm == 'start_update_check':
             if last_allowed is None or last_allowed.info['decision'] not in POS or any(x.name in ('start_update_check', 'compute_next_update_time') for x in steps[steps.index(last_allowed) + 1:k]):
                 bad('check-needs-consent', 'a check started without a positive policy answer for this very attempt')
@@ -319,9 +356,13 @@ def check_path(ex, st, steps, Ds, cover):
             prev = [x for x in steps[:k] if x.name == 'reboot_allowed' and x.i > [y.i for y in steps if y.name == 'StateChange(WaitingForReboot)'][-1]]
             od = opts_source_is_ondemand(ex, st, s.info['options'])
             base_od = opts_source_is_ondemand(ex, st, check_ondemand) if check_ondemand is not None else z3.BoolVal(False)
-            inner_od = any(x.name == 'control-request' and x.info['on_demand'] == 1 for x in steps[:k] if x.i > (steps.index(last_allowed) if last_allowed in steps else 0))
-            if not inner_od:
-                Ds['reboot-needs-consent'].require(st, z3.Implies(od, base_od), 'reboot question is on-demand only if the check was or an on-demand request arrived')
+            # on-demand requests received since the policy allowed this check (during the check or the reboot
+            # wait) upgrade the pending reboot question, for good; nothing else does
+            reqs = [x for x in steps[:k] if x.name == 'control-request' and x.i > (last_allowed.i if last_allowed is not None else -1)]
+            req_od = z3.Or([z3.BoolVal(False)] + [opts_source_is_ondemand(ex, st, x.info['options']) for x in reqs])
+            Ds['reboot-needs-consent'].require(st, z3.Implies(od, z3.Or(base_od, req_od)), 'reboot question is on-demand only if the check was or an on-demand request arrived')
+            if reqs:
+                Ds['one-truthful-reply'].require(st, z3.Implies(req_od, od), 'after an on-demand request every later reboot question is on-demand')
             if prev:
                 # re-asked: only after the 30-minute timer fired or an on-demand request arrived just before
                 just_req = k >= 2 and steps[k - 1].name == 'reply' and steps[k - 2].name == 'control-request' and steps[k - 2].info['on_demand'] == 1
@@ -340,11 +381,12 @@ def check_path(ex, st, steps, Ds, cover):
             ra = [x for x in steps[:k] if x.name == 'reboot_allowed']
             if mode != 'reboot' or not ra or ra[-1].info['answer'] != 1:
                 bad('reboot-needs-consent', 'reboot without a pending reboot and a positive most recent answer')
-    # unanswered request: only acceptable if the path was cut right after it
+    # unanswered request: only acceptable if the path was cut before the policy's answer was acted upon
     if pending_req is not None:
         after = [s for s in steps if s.i > pending_req.i and s.name not in ('get_apps', 'update_check_allowed')]
-        if after:
-            bad('one-truthful-reply', 'a request was never answered')
+        decided = [s for s in steps if s.i > pending_req.i and s.name == 'update_check_allowed' and s.info.get('decision') is not None]
+        if after or decided:
+            bad('one-truthful-reply', 'a request was never answered (policy decision %s)' % ([s.info.get('decision') for s in decided] or None))
 
 
 def is_thirty_minutes(ex, st, s):
@@ -412,6 +454,28 @@ def waited_report(ex, st, steps, D, cover, bad):
     if mets:
         cover.add('report-ok')
         k = steps.index(mets[0])
+        # the reported duration runs from the recorded finish to the start of *this* state machine: the one
+        # monotonic reading taken before anything else, whatever iteration the report finally succeeds in
+        mono = [s for s in steps if s.name == 'now_in_monotonic']
+        nows = [s for s in steps[:k] if s.name == 'now']
+        if not mono or mono[0].i > mets[0].i:
+            bad('waited-for-reboot-report', 'no start time of the state machine was read before the report')
+        elif not nows:
+            bad('waited-for-reboot-report', 'report without a clock reading')
+        else:
+            start = Tree({}, mono[0].e.out, 'std::time::Instant')
+            now = Tree({}, nows[-1].e.out, 'time::ComplexTime')
+            ss, sn = time_parts(ex, st, start)
+            ws, wn = time_parts(ex, st, ex.child(st, now, 0, 'std::time::SystemTime'))
+            ms, mn = time_parts(ex, st, ex.child(st, now, 1, 'std::time::Instant'))
+            fin_us = payload(ex, st, ft, 1, 0, 'i64').t
+            a = (ws * NANOS + wn) - fin_us * 1000
+            b = (ms * NANOS + mn) - (ss * NANOS + sn)
+            mv = decode_metric(ex, st, mets[0].e)[1]
+            d = payload(ex, st, mv, ex.src.variant_index('Metrics', 'WaitedForRebootDuration'), 0, 'std::time::Duration')
+            ds, dn = dur_parts(ex, st, d)
+            D.require(st, z3.And(a >= 0, b >= 0, ds * NANOS + dn == a - b),
+                      'reported duration == (report time - finish) - (time since the state machine started), clocks consistent')
         after = [s.name for s in steps[k + 1:k + 4]]
         if after != ['remove', 'remove', 'commit'] or len(removes) != 2:
             bad('waited-for-reboot-report', 'after a successful report the two keys are not removed and committed: %s' % after)
@@ -424,3 +488,4 @@ def c18_run(chk):
     Ds = monitor_run(chk, chk.tier)
     chk.obligations = [o for o in chk.obligations if o.name not in
                        ('invalid-apps-never-start', 'check-needs-consent', 'reboot-needs-consent', 'one-truthful-reply', 'timers-follow-policy', 'idle-and-waiting-for-reboot')]
+
